@@ -95,7 +95,7 @@ func buildTagFields(rt reflect.Type, out, pretty, embedded, omitEmpty bool) (fa 
 		if len(name) == 0 || 'a' <= name[0] {
 			continue
 		}
-		if f.Anonymous && !out {
+		if embeddedStruct(&f) && !out {
 			if f.Type.Kind() == reflect.Ptr {
 				for _, fi := range buildTagFields(f.Type.Elem(), out, pretty, embedded, omitEmpty) {
 					fi.index = append([]int{i}, fi.index...)
@@ -149,7 +149,7 @@ func buildExactFields(rt reflect.Type, out, pretty, embedded, omitEmpty bool) (f
 		if len(name) == 0 || 'a' <= name[0] {
 			continue
 		}
-		if f.Anonymous && !out {
+		if embeddedStruct(&f) && !out {
 			if f.Type.Kind() == reflect.Ptr {
 				for _, fi := range buildExactFields(f.Type.Elem(), out, pretty, embedded, omitEmpty) {
 					fi.index = append([]int{i}, fi.index...)
@@ -177,7 +177,7 @@ func buildLowFields(rt reflect.Type, out, pretty, embedded, omitEmpty bool) (fa 
 		if len(name) == 0 || 'a' <= name[0] {
 			continue
 		}
-		if f.Anonymous && !out {
+		if embeddedStruct(&f) && !out {
 			if f.Type.Kind() == reflect.Ptr {
 				for _, fi := range buildLowFields(f.Type.Elem(), out, pretty, embedded, omitEmpty) {
 					fi.index = append([]int{i}, fi.index...)
@@ -217,4 +217,18 @@ func nilEmbedded(rv reflect.Value, index []int) bool {
 		}
 	}
 	return false
+}
+
+// embeddedStruct returns true if the field is an embedded struct or pointer
+// to a struct. Only those have fields to promote, an embedded type of any
+// other kind is an ordinary field named after the type.
+func embeddedStruct(f *reflect.StructField) bool {
+	if !f.Anonymous {
+		return false
+	}
+	t := f.Type
+	if t.Kind() == reflect.Ptr {
+		t = t.Elem()
+	}
+	return t.Kind() == reflect.Struct
 }
